@@ -254,7 +254,9 @@ func TestC12(t *testing.T) {
 				amt := rapid.OneOf(rapid.Int64Range(0, 50), rapid.Int64Range(1, 1_000_000), rapid.Int64Range(1, 1_000_000_000_000_000)).Draw(rt, "amount")
 				dur := rapid.SampledFrom(durs).Draw(rt, "dur")
 				if rapid.Bool().Draw(rt, "oddDur") {
-					dur += time.Duration(rapid.Int64Range(0, 999_999).Draw(rt, "ns")) * time.Nanosecond
+					// odd durations, but in whole microseconds: real gauges last whole days, and two gauges whose ends
+					// differ by less than a microsecond (which would share an id) cannot be produced by any message
+					dur += time.Duration(rapid.Int64Range(0, 999_999).Draw(rt, "us")) * time.Microsecond
 				}
 				w.keeperGauge(payer, amt, dur)
 				if rapid.IntRange(0, 3).Draw(rt, "twin") == 0 { // the coincidence the property names
